@@ -32,7 +32,11 @@ def mk_track(case):
     n = len(case['X'])
     tr = Track([Obs(ENUCoords(case['X'][i], case['Y'][i], case['Z'][i]), ObsTime.readUnixTime(1000 + 10 * i)) for i in range(n)])
     for k in 'abs':
-        tr.createAnalyticalFeature(k, [_f(v) for v in case[k]])
+        vals = [_f(v) for v in case[k]]
+        if case.get('np'):                        # the same values held as numpy.float64 scalars (a float subclass: what list(np.array(...)) and the numpy-based feature code produce)
+            import numpy as np
+            vals = list(np.array(vals, dtype=np.float64))
+        tr.createAnalyticalFeature(k, vals)
     return tr
 
 
@@ -54,9 +58,13 @@ def _col(l):
     return coq_list('None' if v is None else 'Some ' + q(v) for v in l)
 
 
+def _hasinf(obs):
+    return any(isinstance(v, float) and v in (float('inf'), float('-inf')) for l in [obs.get('ret') or [], obs['x'], obs['y'], obs['z']] + obs['cols'] for v in l)
+
+
 def coq_case(case, obs):
-    if 'exc' in obs:
-        return None
+    if 'exc' in obs or ('err' not in obs and _hasinf(obs)):
+        return None                               # an infinity is not a value of the rational model: left to the oracle
     n = len(case['X'])
     t = '{| xs := %s; ys := %s; zs := %s; ts := %s; dico := [(s_ "a", 0%%nat); (s_ "b", 1%%nat); (s_ "s", 2%%nat)]; feats := %s |}' % (
         _col(case['X']), _col(case['Y']), _col(case['Z']), _col([1000 + 10 * i for i in range(n)]),
@@ -176,6 +184,10 @@ def gen_tree(rng, d, top=True):
     if top and rng.random() < 0.08:                                    # a pointwise function of a product / quotient of features: zeros of either sign, NaN
         inner = ['bin', rng.choice(['*', '*', '/']), ['name', rng.choice(['a', 'b', 's'])], rng.choice([['name', rng.choice(['a', 'b', 's'])], ['neg', ['lit', rng.choice(['2', '0.5'])]]])]
         return ['fun', rng.choice(['SIGN', 'SIGN', 'ABS', 'DIODE']), inner]
+    if top and rng.random() < 0.08:                                    # number op feature / feature op number: each has its own operator class (reverse subtraction, reverse division ...)
+        f = ['name', rng.choice(['a', 'b', 's'])]; l = ['lit', rng.choice(['2', '3', '0.5', '10'])]
+        t = ['bin', rng.choice(['/', '/', '-', '*', '+']), l, f] if rng.random() < 0.6 else ['bin', rng.choice(['/', '-', '*', '+', '^']), f, l]
+        return t if rng.random() < 0.6 else ['bin', rng.choice(['+', '-', '*']), t, gen_tree(rng, 1, False)]
     r = rng.random()
     if d == 0 or r < 0.22:
         return ['name', rng.choice(TNAMES)] if rng.random() < 0.7 else ['lit', rng.choice(['2', '3', '0.5', '10', '1', '0'])]
@@ -262,7 +274,9 @@ def ev(e, env, n):
             out.append(u * v)
         elif op == '/':
             if v == 0:
-                raise Undefined()
+                if lit_only(e[2]) or lit_only(e[3]):
+                    raise Undefined()             # division by a number that is zero, or of a number by a feature holding a zero: an error, excluded
+                out.append(nan); continue         # feature / feature: the documented value for a zero denominator is undefined (NaN)
             out.append(u / v)
         elif op == '^':
             # IEEE pow as Python's ** computes it: x ** 0 == 1 and 1 ** y == 1 even for NaN
@@ -290,6 +304,7 @@ def gen_trees(rng, n, tier):
     out = []
     while len(out) < n:
         c = rand_track(rng)
+        c['np'] = rng.random() < 0.25             # feature values held as numpy.float64 (oracle stream only: numpy turns some Python errors into inf, which the model's error classes do not describe)
         e = gen_tree(rng, rng.randint(1, 4))
         try:
             exp = ev(e, env_of(c), len(c['X']))
